@@ -33,6 +33,10 @@ RULE = (
     "by (grid label, query)"
 )
 ASSUMPTIONS = [
+    "purity: no query may change the grid it is asked about (nodes, face_nodes raw, "
+    "cell_faces in canonical form, tags, geometry compared bitwise before/after); all "
+    "queries of one grid run on ONE grid object, so a query that damaged the incidence "
+    "would also corrupt the answers of the queries after it",
     "the diagonal of cell_connection_map is not constrained (property: symmetric, "
     "neighbours = cells sharing a face)",
     "as-built tags: domain_boundary_faces == one-neighbour faces for unfractured grids "
@@ -88,6 +92,18 @@ def check_grid(g, label, out: Outcome, born="plain"):
         else:
             out.ev(f"{query}/{ok_cls}", (label, query) if nontriv else None)
 
+    base_digest = G.grid_digest(g)
+
+    def pure(query):
+        """The query must leave the grid bitwise unchanged (cell_faces in canonical form)."""
+        ch = G.digest_diff(base_digest, G.grid_digest(g))
+        if ch:
+            out.violate(f"{query}: argument grid mutated", grid=label, changed=ch)
+            out.ev("VIOLATION")
+            base_digest.update(G.grid_digest(g))
+        else:
+            out.ev(f"pure/{query}")
+
     shape_cls = f"{g.dim}d/" + ("closed" if not (cnt == 2).any() else "mixed") + ("/split" if born == "frac" and g.tags["fracture_faces"].any() else "")
 
     # --- cell_faces_as_dense
@@ -105,6 +121,7 @@ def check_grid(g, label, out: Outcome, born="plain"):
         ev("as_dense", shape_cls, bad, got=got, expected=exp)
     except Exception as e:
         ev("as_dense", "", "raised", error=repr(e))
+    pure("as_dense")
 
     # --- cell_connection_map
     try:
@@ -122,6 +139,7 @@ def check_grid(g, label, out: Outcome, born="plain"):
         ev("connection_map", shape_cls + ("/connected" if _connected(exp) else "/disconnected"), bad, got=Md, expected=exp)
     except Exception as e:
         ev("connection_map", "", "raised", error=repr(e))
+    pure("connection_map")
 
     # --- boundary tags
     exp_tag = cnt == 1
@@ -144,6 +162,7 @@ def check_grid(g, label, out: Outcome, born="plain"):
         ev("born_tag", shape_cls + "/" + born, bad, got=got, expected=exp_tag)
     except Exception as e:
         ev("born_tag", "", "raised", error=repr(e))
+    pure("copy+get_all_boundary_faces")
 
     # --- signs_and_cells_of_boundary_faces
     if one.size:
@@ -177,6 +196,8 @@ def check_grid(g, label, out: Outcome, born="plain"):
             except Exception:
                 out.ev("signs_cells/internal-face:other-error")
 
+    pure("signs_cells")
+
     # --- cell_nodes
     try:
         FN = (g.face_nodes.toarray() != 0).astype(int)
@@ -190,6 +211,7 @@ def check_grid(g, label, out: Outcome, born="plain"):
         ev("cell_nodes", shape_cls, bad, got=got, expected=exp)
     except Exception as e:
         ev("cell_nodes", "", "raised", error=repr(e))
+    pure("cell_nodes")
 
     # --- divergence
     for k in (1, 2, 3):
@@ -201,6 +223,7 @@ def check_grid(g, label, out: Outcome, born="plain"):
             ev(f"divergence{k}", shape_cls, bad, got=got, expected=exp)
         except Exception as e:
             ev(f"divergence{k}", "", "raised", error=repr(e))
+    pure("divergence")
     try:
         g.divergence(0)
         out.ev("divergence0/no-error")
